@@ -2,7 +2,7 @@
 from __future__ import annotations
 import time
 from harness.core import Task, OR, PROVED, REFUTED
-from contracts import scanners, rx_cascade, resub
+from contracts import scanners, rx_cascade, resub, casefold, operands
 from contracts.common import *
 from specs import stmts as ST
 
@@ -16,8 +16,10 @@ def bounded_task():
         hit = c01.search()
         r = OR(id=f"{PROP}.Bd.parser.spelling_equivalence", status=REFUTED if hit else PROVED, kind="Bd", role="bounded", target="ford.sourceform.FortranSourceFile (real parser)",
                desc="one model program (module variables, a derived type, a subroutine with four dummy arguments, a function with result) rendered with every "
-                    "combination of kind spelling x attribute on declaration / attribute statements x END spelling x '::' x letter case: equal canonical trees",
-               bound=f"{c01.count_cases()} renderings of one model program", cases=c01.count_cases(), seconds=time.time() - t0, backend="enumeration")
+                    "combination of kind spelling x attribute on declaration / attribute statements x END spelling x '::' x letter case: equal canonical trees; a second model "
+                    "program (type-bound specific / generic / final procedures, rank >= 2 bounds in DIMENSION / ALLOCATABLE / POINTER / TARGET statements, INTENT(IN OUT), "
+                    "entity character lengths `c*20`, EXTERNAL, interfaces, enumeration, common block, namelist) x attribute style x keyword case x '::' x identifier case at use sites",
+               bound=f"{c01.count_cases()} renderings of two model programs", cases=c01.count_cases(), seconds=time.time() - t0, backend="enumeration")
         if hit:
             r.replay, r.witness = hit, hit["input"]
         return [r]
@@ -33,6 +35,11 @@ def build(tier, seed):
     tasks.append(Task(f"{PROP}.B.exclusions", PROP, "cascade", lambda: rx_cascade.executable_exclusions(PROP)))
     tasks.append(Task(f"{PROP}.B.ordered_alt", PROP, "cascade", lambda: rx_cascade.ordered_alt_obligations(PROP)))
     tasks.append(Task(f"{PROP}.S.resub", PROP, "re.sub call sites", lambda: resub.obligations(PROP)))
+    def _replay():
+        from bounded import c01
+        return c01.search_rich() or c01.search()
+    tasks.append(Task(f"{PROP}.S.casefold", PROP, "keyword tests on captured text", lambda: casefold.obligations(PROP, "ford.sourceform", _replay)))
+    tasks.append(Task(f"{PROP}.S.operands", PROP, "operand list splitting", lambda: operands.obligations(PROP, _replay)))
     tasks.append(bounded_task())
     meta = {
         "trusted_base": TRUSTED_BASE,
@@ -46,7 +53,9 @@ def build(tier, seed):
         ],
         "functions_under_contract": fn_meta([("ford.utils", "paren_split", None), ("ford.utils", "get_parens", None)]) +
         [{"constants": "every regex of the dispatch cascade of FortranContainer.__init__, read from the if/elif chain on every run"},
-         {"call_sites": "re.sub / Pattern.sub with source-derived replacements in ford/sourceform.py"}],
+         {"call_sites": "re.sub / Pattern.sub with source-derived replacements in ford/sourceform.py"},
+         {"call_sites": "comparisons of regex-captured text with keyword literals in ford/sourceform.py (case fold required)"},
+         {"call_sites": "comma splitting of operand lists that may hold parentheses (FortranContainer.__init__ attribute statements, line_to_variables)"}],
         "unverified_surroundings": ["constructor recursion over the shared reader iterator", "line_to_variables / parse_type as a whole", "FortranProcedure._cleanup, "
                                     "FortranFunction._cleanup, FortranType._cleanup, process_attribs (union-typed lists are outside Engine A's value model; covered by the "
                                     "bounded differential run only)", "interface flattening", "generated HTML"],
